@@ -5,11 +5,42 @@ from common import *
 import vm_corr, vm_checks, progs
 
 PROP_MODULE = "NeverModel.Props.C07"
-REQUIRED = ["Never.C07.verified_table_wellformed", "Never.C07.verified_every_fault_has_handler", "Never.C07.verified_nonempty", "Never.C07.simple_effect_sound_arith"]
+REQUIRED = ["Never.C07.verified_table_wellformed", "Never.C07.verified_every_fault_has_handler", "Never.C07.verified_nonempty", "Never.C07.simple_effect_sound_arith", "Never.C07.simple_effect_sound"]
 
 def verify_dump(path):
-    p = subprocess.run([NMDRV, "verify", path], stdout=subprocess.PIPE, stderr=subprocess.PIPE, text=True, timeout=300)
-    return p.stdout.strip()
+    """-> (verdict line, {address: (height, nparams)} for the addresses inside function bodies)"""
+    p = subprocess.run([NMDRV, "verify", "--heights", path], stdout=subprocess.PIPE, stderr=subprocess.PIPE, text=True, timeout=300)
+    lines = p.stdout.strip().split("\n")
+    hs = {}
+    for l in lines[1:]:
+        if l.startswith("H "):
+            for w in l.split()[1:]:
+                a, h, np = w.split(":")
+                hs[int(a)] = (int(h), int(np))
+    return (lines[0] if lines else ""), hs
+
+def height_check(trace_path, hs, limit=60000):
+    """the verifier's table against the running VM: before every executed instruction inside a function body
+    sp = pp + nparams + h(ip) (pp = frame pointer of the running function).  -> (steps checked, first mismatch or None)"""
+    n = 0
+    try:
+        with open(trace_path) as f:
+            for l in f:
+                if not l.startswith("t "):
+                    continue
+                w = l.split()
+                ip, op, sp, fp = int(w[1]), int(w[2]), int(w[3]), int(w[5])   # w[5] = pp: the frame of the running function (fp moves at MARK, pp at CALL)
+                e = hs.get(ip)
+                if e is None:
+                    continue
+                n += 1
+                if sp - fp - e[1] != e[0]:
+                    return n, "ip=%d opcode=%d: sp=%d fp=%d nparams=%d -> height %d at run time, the verifier derived %d" % (ip, op, sp, fp, e[1], sp - fp - e[1], e[0])
+                if n >= limit:
+                    break
+    except OSError:
+        pass
+    return n, None
 
 def check(tier, seed):
     rep = Report("C07", tier, seed, "translation_validation")
@@ -27,15 +58,18 @@ def check(tier, seed):
     agg = dict(instrs=0, functions=0, calls=0, tail=0, jumps=0, handlers=0, unreached=0)
     samples, fails = [], 0
     def one(j):
-        r = h.run(trace=False, timeout=60, **{k: v for k, v in j.items() if k not in ("name", "meta")})
-        out = verify_dump(r["dump"]) if os.path.exists(r["dump"]) else "nodump"
+        r = h.run(trace=True, maxlines=60000, timeout=60, **{k: v for k, v in j.items() if k not in ("name", "meta")})
+        out, hs = verify_dump(r["dump"]) if os.path.exists(r["dump"]) else ("nodump", {})
+        hn, hbad = height_check(r["trace"], hs) if out.startswith("ok") else (0, None)
         err = r["err"]
         kind = vm_corr.impl_outcome(r)["kind"]
         h.cleanup(r)
-        return j, out, err, kind
+        return j, out, err, kind, hn, hbad
     with ThreadPoolExecutor(max_workers=14) as ex:
         res = list(ex.map(one, jobs))
-    for j, out, err, kind in res:
+    hsteps, hbads = 0, 0
+    for j, out, err, kind, hn, hbad in res:
+        hsteps += hn
         if out == "nodump" or out == "":
             stats["not-compiled"] += 1
             if kind.startswith(("sanitizer", "signal", "assert", "crash")):
@@ -52,6 +86,12 @@ def check(tier, seed):
                 if k in agg: agg[k] += int(v)
             if len(samples) < 3:
                 samples.append(dict(program=j["name"], verdict=out))
+            if hbad:
+                hbads += 1
+                if hbads <= 3:
+                    src = j.get("src") or open(j["file"]).read()
+                    rep.violation("c07_height_%s" % j["name"],
+                        "# the verified module does not run at the heights the verifier derived (its stack-effect table, or the VM handler, is wrong):\n# %s\n%s" % (hbad, src), True)
         else:
             stats["FAIL"] += 1
             fails += 1
@@ -59,7 +99,7 @@ def check(tier, seed):
                 src = j.get("src") or open(j["file"]).read()
                 rep.violation("c07_%s" % j["name"], "# the code emitted for this accepted program is ill-formed (static check over all addresses, executed or not):\n# %s\n# replay: h_vm -e/-f <program> -D dump; nmdrv verify dump\n%s" % (out, src), True)
     h.close()
-    rep.cov.update(programs=stats["ok"] + stats["FAIL"], disagreements_checked=stats["FAIL"],
+    rep.cov.update(height_steps_cross_checked=hsteps, height_mismatch_programs=hbads, programs=stats["ok"] + stats["FAIL"], disagreements_checked=stats["FAIL"],
                    samples=samples, statuses=stats, totals=agg,
                    trusted_base=["Lean definition of `verify` (Model/Verify.lean) + its compiled driver", "module dump of h_vm.c (public structs) and the NEVER_VERIF function-table hook",
                                  "M-VM stack effects tied by lockstep traces (C01)"],
